@@ -1,10 +1,10 @@
 #!/bin/bash
-# record_seeds.sh [tier]: for every seeded/<id>/ without result.json, run the check of its property against the
+# record_seeds.sh [tier] [glob]: for every seeded/<id>/ without result.json, run the check of its property against the
 # patched /repo (tools/try_seed.sh) and write result.json from meta.json and the outcome. Notes on strengthening are
 # taken from seeded/<id>/strengthened.txt when present.
-tier=${1:-quick}
+tier=${1:-quick}; pat=${2:-*}
 cd /verif
-for d in seeded/*/; do
+for d in seeded/$pat/; do
   n=$(basename $d)
   [ -f $d/result.json ] && continue
   [ -f $d/patch.diff ] || continue
